@@ -2,6 +2,7 @@
 shared state: the schedule is a symbolic sequence of thread ids, the initial shared state is symbolic,
 an SMT solver looks for a schedule + state in which a `bad` condition (MIR assert) fires or the
 property-specific collision predicate holds."""
+import os
 import re
 import subprocess
 import time
@@ -118,8 +119,8 @@ class Model:
 
     def succ_expr(self, succ, i, c):
         if not succ:
-            return str(-1)   # dead end (bad path): thread stops
-        e = str(-1)
+            return "(- 1)"   # dead end (bad path): thread stops
+        e = "(- 1)"
         for cond, n in reversed(succ):
             cs = self.sub(cond, i, c) if cond else "true"
             e = "(ite %s %d %s)" % (cs, self.pcv(c, n), e)
@@ -145,7 +146,13 @@ def solve(lines, query, get_values, solver="z3", timeout_s=600):
     """runs one query on top of the base encoding; returns (status, model dict, seconds)"""
     txt = "\n".join(lines + ["(push)", "(assert %s)" % query, "(check-sat)"] +
                     (["(get-value (%s))" % " ".join(get_values)] if get_values else []) + ["(pop)", "(exit)"])
-    cmd = ["z3", "-in", "-T:%d" % timeout_s] if solver == "z3" else ["cvc5", "--lang", "smt2", "--produce-models", "--tlimit=%d" % (timeout_s * 1000)]
+    d = os.environ.get("VERIF_DUMP_SMT")
+    if d:
+        os.makedirs(d, exist_ok=True)
+        open(os.path.join(d, "q%03d_%s.smt2" % (len(os.listdir(d)), solver)), "w").write(txt)
+        if os.environ.get("VERIF_DUMP_ONLY"):
+            return ("sat" if query.startswith("(and all_done (not any_bad))") else "unknown"), {}, 0.0
+    cmd = ["z3", "-in", "-T:%d" % timeout_s] if solver == "z3" else ["cvc5", "--lang", "smt2", "--incremental", "--produce-models", "--tlimit=%d" % (timeout_s * 1000)]
     t0 = time.time()
     p = subprocess.run(cmd, input=txt, stdout=subprocess.PIPE, stderr=subprocess.STDOUT, text=True)
     dt = time.time() - t0
